@@ -157,6 +157,21 @@ static int encode(int *fl, int nf, const char *opts, const unsigned char *p, siz
 #undef W
 }
 
+/* Does some read bidder claim the plain payload?  (C03's documented exception: with all
+ * filters enabled the reader keeps unwrapping a payload that begins with a signature.) */
+static int payload_claimed(const unsigned char *p, size_t n)
+{
+	struct archive *a = archive_read_new();
+	archive_read_support_filter_all(a);
+	archive_read_support_format_raw(a);
+	archive_read_support_format_empty(a);
+	unsigned char *src = malloc(n ? n : 1); memcpy(src, p, n);
+	int r = archive_read_open_memory(a, src, n);
+	int claimed = (r != ARCHIVE_OK) || archive_filter_count(a) > 1;
+	archive_read_free(a); free(src);
+	return claimed;
+}
+
 /* Decode `enc`; prints the reader half of the line. */
 static void decode(int *fl, int nf, int all, const unsigned char *enc, size_t en, size_t rblock,
     const unsigned char *want, size_t wn)
@@ -235,6 +250,7 @@ static void f_op(char *line)
 		int ws = encode(fl, nf, w[2], p, pn, w[4], w[5], &sk, wcodes, sizeof wcodes, optst, sizeof optst);
 		printf("w=%s opts=%s wcodes=%s enc=%zu:%016llx", vh_st(ws), optst, wcodes, sk.n, (unsigned long long)vh_fnv(sk.b, sk.n));
 		if (only_text(fl, nf) && sk.n <= 400) { printf(" hex="); vh_puthex(sk.b, sk.n); }
+		printf(" psig=%d", payload_claimed(p, pn));
 		decode(fl, nf, !strcmp(w[7], "all"), sk.b, sk.n, strtoul(w[6], NULL, 10), p, pn);
 		free(sk.b); free(p);
 	} else if (n == 8 && !strcmp(w[0], "mm")) {
@@ -249,7 +265,7 @@ static void f_op(char *line)
 		if (sb.n) memcpy(cat + sa.n, sb.b, sb.n);
 		if (an) memcpy(both, pa, an);
 		if (bn) memcpy(both + an, pb, bn);
-		printf("wa=%s wb=%s wcodes=%s encA=%zu encB=%zu", vh_st(wa), vh_st(wb), wcodes, sa.n, sb.n);
+		printf("wa=%s wb=%s wcodes=%s encA=%zu encB=%zu psig=%d", vh_st(wa), vh_st(wb), wcodes, sa.n, sb.n, payload_claimed(both, an + bn));
 		decode(fl, nf, !strcmp(w[7], "all"), cat, sa.n + sb.n, strtoul(w[6], NULL, 10), both, an + bn);
 		free(sa.b); free(sb.b); free(cat); free(both); free(pa); free(pb);
 	} else printf("bad-op\n");
